@@ -88,6 +88,19 @@ def regen_facts():
         os.makedirs(os.path.dirname(path), exist_ok=True)
         with open(path, "w") as f:
             f.write(out)
+    # the translated functions: Gen/Src.lean is regenerated from the Go source by harness/cmd/go2lean
+    exe = os.path.join(HARNESS, "bin", "go2lean")
+    tmp = os.path.join(WORK, "Src.lean.%d" % os.getpid())
+    rc, out = sh([exe, "-repo", REPO, "-o", tmp], cwd=HARNESS, env=GOENV, timeout=600)
+    if rc != 0:
+        return False, "go2lean could not translate the current source (a construct outside its subset, or a function it is told to translate is gone):\n" + out
+    out = open(tmp).read()
+    os.remove(tmp)
+    path = os.path.join(LEAN, "P2PVerif", "Gen", "Src.lean")
+    old = open(path).read() if os.path.exists(path) else None
+    if old != out:
+        with open(path, "w") as f:
+            f.write(out)
     return True, ""
 
 
